@@ -42,9 +42,9 @@
        p(t) solve the pair-based system from the same initial vector, and SIR_pair_based returns that solution up to
        solver tolerance (Picard-Lindeloef).  Cited, as everywhere in this development; harness/c08t.py integrates both
        sides and checks the conclusion and every intermediate identity numerically;
-     * "tree_okb accepts every tree" is not proved as a statement about all trees (it is a terminating computation:
-       C08t_nonvacuous_tree_check evaluates it on trees with 3 .. 6 nodes and on two graphs with a cycle, and
-       harness/c08t.py evaluates the extracted check on every tree up to the size bound of the run). *)
+     * (closed since: Props/C08tree.v proves that tree_okb accepts EXACTLY the forests, so every theorem below holds for
+       every tree without an acceptance hypothesis; C08t_nonvacuous_tree_check and harness/c08t.py still evaluate the
+       check on concrete trees and on graphs with a cycle.) *)
 From EoNV Require Import Prelude Graph Vec VecP Rhs2D Rhs2DP Rhs2 Rhs2GenP Master C08tG C08tS C08tT C08tR C08tA C08tO C08tF C08tE C08tP3 C08tP4 C08tC.
 
 (* ---------------- the general master equation is the one the single-edge theorem used ---------------- *)
